@@ -4429,3 +4429,41 @@ Lemma rendered_PG sp s : sp <> [] -> rendered sp s -> PG sp s.
 Proof.
   intros Hs [(a & b & L & Hne & Hall & ->)|(a & ->)]; [now apply PG_render|now apply PG_seps].
 Qed.
+
+(* ======================================================================================== *)
+(* 34. histories: every add_path_to_tree call of any history is exact for the tree as it is then *)
+
+(* the add_path clause for one call: tb = the tree the call started from *)
+Definition add_clause (tb : tree) (sep path : str) (r : tree * res pos) : Prop :=
+  forall t' p, r = (t', Ret p) ->
+    (forall q, In q (paths t') <-> In q (paths tb) \/ In q (prefixes (branch_of path sep)))
+    /\ names_along t' p = branch_of path sep
+    /\ (exists s', subtree_at t' p = Some s')
+    /\ (forall q s, subtree_at tb q = Some s ->
+          exists s', subtree_at t' q = Some s' /\ ttag s' = ttag s /\ tname s' = tname s)
+    /\ (forall q s', subtree_at tb q = None -> subtree_at t' q = Some s' -> ttag s' = None).
+
+Lemma add_clause_holds t tsep sep path na :
+  add_clause t sep path (add_path_to_tree t tsep path sep true na).
+Proof.
+  intros t' p H.
+  destruct (add_path_returns _ _ _ _ _ _ _ H) as [Hex Hn].
+  destruct (add_path_reuses _ _ _ _ _ _ _ H) as (Hr & Hf & _).
+  split; [exact (add_path_paths _ _ _ _ _ _ _ H)|]. split; [exact Hn|]. split; [exact Hex|]. split.
+  - intros q s Hq. destruct (Hr q s Hq) as (s' & Hs' & Ht & Hnm & _). eauto.
+  - exact Hf.
+Qed.
+
+(* C05_history_adds_exact: whatever adds and structural edits (detach, re-parent, sort) came before,
+   each add is exact against the tree as it is at that moment: the model keeps no state between calls *)
+Theorem history_adds_exact tsep sep : forall ops t,
+  Forall (fun e => match e with (tb, path, _, r) => add_clause tb sep path r end)
+         (hrun tsep sep true t ops).
+Proof.
+  induction ops as [|op ops IH]; intros t; [constructor|].
+  destruct op as [path na|p|src dst|p]; cbn [hrun].
+  - constructor; [apply add_clause_holds|apply IH].
+  - destruct (hedit t (HDel p)); [apply IH|constructor].
+  - destruct (hedit t (HMove src dst)); [apply IH|constructor].
+  - destruct (hedit t (HSort p)); [apply IH|constructor].
+Qed.
